@@ -154,6 +154,12 @@ func runC01(o *opts) error {
 	// bounded-exhaustive sweep of literal syntax and number -> string coercion positions
 	r.stats["coerce-sweep-filters"] = c01SweepCoerce(r, dotted)
 
+	// bounded-exhaustive sweep of boundary values (empty string, zeros, false, zero times) at the end of and along
+	// every symbol path shape (c01_boundary.go)
+	if dotted {
+		c01SweepBoundary(r, o.thorough())
+	}
+
 	// the modelled float formatter against strconv.FormatFloat
 	nfmt := 400
 	if o.thorough() {
